@@ -14,7 +14,8 @@ PROPS = {
                        'untraced edges are justified by immortality rules (single string constructor, intern table never '
                        'drops; core classes rooted in the Vm), unrooted handles outside the heap are each covered by a named '
                        'root, Root construction/Drop are paired with the root count, and values that are fresh or popped '
-                       'are not live across a may-collect call without a root.',
+                       'are not live across a may-collect call without a root.'
+                       ' Later additions (DESIGN 3a.5/3a.6): R0 collector fixpoint; R1 only accepts a trace call made on the handle itself (a payload impl reached through Deref does not colour the box).',
         'assumptions': COMMON_ASSUME + ['the 40-line mark/sweep colour logic in Heap::{mark_roots,trace_references,sweep} is correct'],
         'not_decided': ['colour logic of the collector core', 'hazards needing whole-program alias reasoning',
                         'host code using the public Root/Gc API'],
@@ -63,7 +64,8 @@ PROPS = {
                        'propagate with `?` originates in unwind_stack/try_handle_error, computed as a closure over propagation edges with '
                        'an origin analysis of each function\'s returned Err; (X2) non-local exits emit a handler-removing opcode; (X3) '
                        'functions that remove call frames also remove those frames\' handlers; (X4) the catch entry does not pop a second '
-                       'handler.',
+                       'handler.'
+                       ' Later additions (DESIGN 3a.5/3a.6): X6 handler addresses from widened operands, X7 nothing happens after a delivered error, X8 in_try_block scoping, X9 every frame-list change is followed by load_frame, X10 the outcome pending during a finally block must be stored per entry (three known findings), X11 a return out of a finally block must discard the in-flight state (one known finding).',
         'assumptions': COMMON_ASSUME,
         'not_decided': ['which handler receives which exception at run time', '"finally runs exactly once" on every exit (dynamic)',
                         'exceptions thrown inside catch/finally blocks'],
@@ -78,7 +80,8 @@ PROPS = {
         'explanation': 'Pairing and sibling-agreement rules over MIR: every call that lowers a fiber\'s value stack is dominated by '
                        'close_upvalues in the same function (or is one of two operand-only helpers); the scope-exit emitter chooses '
                        'CloseUpvalue/Pop from the capture flag which only resolve_upvalue sets; the (is_local, index) capture descriptors '
-                       'are written and read in the same order and count.',
+                       'are written and read in the same order and count.'
+                       ' Later additions (DESIGN 3a.5/3a.6): S1\' closes from the new height, S4 the open-upvalue list stays ordered, S5 upvalues are closed only for slots that are discarded.',
         'assumptions': COMMON_ASSUME,
         'not_decided': ['name resolution results', 'ordering of the open-upvalue list', 'sharing across fibers at run time'],
         'level_text': 'Decides S1-S3 for every stack-lowering site and the capture emit/read siblings; what a name resolves to is not decided.',
@@ -90,7 +93,8 @@ PROPS = {
         'module': 'c09',
         'explanation': 'Pairing rules over MIR in both build worlds (dev: Ref-returning active_fiber; rel: raw-pointer active_fiber): every '
                        'write of Vm.fiber is paired with a write of Vm.unsafe_fiber derived from the same fiber with no active-fiber use in '
-                       'between; each frame/fiber switch saves the running ip first; each switch writes the result slot of the resumed side.',
+                       'between; each frame/fiber switch saves the running ip first; each switch writes the result slot of the resumed side.'
+                       ' Later additions (DESIGN 3a.5/3a.6): F4 switch errors are raised before link state is written; S5 a yield does not close the suspended fiber\'s upvalues.',
         'assumptions': COMMON_ASSUME,
         'not_decided': ['interleavings of several fibers', 'per-fiber isolation of locals/handlers at run time',
                         'that error cases leave every fiber untouched'],
@@ -121,7 +125,8 @@ PROPS = {
         'explanation': 'Definite-assignment analysis over MIR: every field of Vm classified per-run is assigned on every path of execute() '
                        'before run() (through a must-write summary of load_fiber/load_frame); unclassified fields alarm exactly when '
                        'run-reachable code writes them and execute does not reset them; the Err arm of a run reaches reset_stack; no '
-                       'debug-only assertion reads cross-run state; reset() re-initialises every persistent field a run can change.',
+                       'debug-only assertion reads cross-run state; reset() re-initialises every persistent field a run can change.'
+                       ' Later additions (DESIGN 3a.6): M4 a failed import leaves no half-registered module.',
         'assumptions': COMMON_ASSUME + ['classification of Vm fields in rules/tables/c15_vm_fields.json'],
         'not_decided': ['behavioural equivalence with one program run piecewise', 'that reset() is observably identical to a new Vm'],
         'level_text': 'Decides N1-N4 for all 17 fields of Vm and the execute/runtime_error/reset paths.',
@@ -135,7 +140,8 @@ PROPS = {
                        '(reporting an uncaught error) are extracted arm by arm and must be mutually inverse with no class tested twice; the '
                        'code and line vectors of a chunk change length only together in Chunk::write; runtime_error looks the line up in '
                        'the chunk of the frame whose ip it uses, innermost frame first; error_at formats its token\'s line and is the only '
-                       'writer of the error list; every newline the scanner matches increments its line counter.',
+                       'writer of the error list; every newline the scanner matches increments its line counter.'
+                       ' Later additions (DESIGN 3a.5/3a.6): L4 who may set / clear the recorded throw site, L5 line numbers keep at least 32 bits, L6 the recorded throw site never outlives its frame.',
         'assumptions': COMMON_ASSUME,
         'not_decided': ['that reported lines are the right ones for every call shape', 'message texts'],
         'level_text': 'Decides L1-L3 for the two error tables, the line table writers and the scanner newline sites.',
@@ -164,7 +170,8 @@ PROPS = {
                        'width = patch arithmetic = VM operand width, same byte order; (B3) every emit_jump result reaches patch_jump/'
                        'push_break on every error-free path, loops drain their breaks, both handler operands are patched; (B4) a forward '
                        'interval interpreter proves every usize->u8/u16 cast operand fits on error-free paths; (B5) limits fit their '
-                       'operand widths; (B6) the line table is parallel to the code.',
+                       'operand widths; (B6) the line table is parallel to the code.'
+                       ' Later additions (DESIGN 3a.5/3a.6): B2w widened operands, B7 every body is terminated, B8 nothing is emitted after an unconditional Jump/Loop/Return without a label, B9 no refusal of the Compiler:: bookkeeping layer is dropped, B10 handler-entry stack height (one known finding), X8 in_try_block is true exactly for the try body.',
         'assumptions': COMMON_ASSUME + ['field bounds in rules/tables/c04_field_bounds.json (each re-verified against its guarded writer)'],
         'not_decided': ['that one instruction is never reached with two operand-stack heights', 'that operands name existing locals/captures '
                         '(properties of generated code; a bytecode verifier over compiler output would be a different technique family)'],
@@ -195,7 +202,8 @@ PROPS = {
                        'the heap as &str; every indexing operation (Index/IndexMut calls and MIR index projections) in vm/core/object whose '
                        'index derives from an operand-stack value gets it through try_as_bounded_index/make_bounded_range; both endpoints of '
                        'every str range-index are checked character boundaries on a dominating path or come from the boundary-scanning '
-                       'iterator. Byte-exact agreement of results with a reference model is NOT decided.',
+                       'iterator. Byte-exact agreement of results with a reference model is NOT decided.'
+                       ' Later additions (DESIGN 3a.5/3a.6): U4 overflow-checked index arithmetic; U5 the range cache hits only on full-width equality of both bounds.',
         'assumptions': COMMON_ASSUME,
         'not_decided': ['byte-exact results of every string function and of negative-index arithmetic (numerical/behavioural: needs '
                         'execution against a model)', 'documented error kind per failing input'],
@@ -211,7 +219,8 @@ PROPS = {
                        'creating; the imported flag is false on creation and set only by FinishImport; the hit edge distinguishes a module '
                        'still being loaded; global opcodes touch only active_module.attributes; load_frame is the only run-time writer of '
                        'active_module; closures record the module they were created in; every failure edge of start_import_impl goes '
-                       'through try_handle_error with ErrorKind::ImportError.',
+                       'through try_handle_error with ErrorKind::ImportError.'
+                       ' Later additions (DESIGN 3a.5/3a.6): X7 nothing after a delivered ImportError; M4 registration only after load and compile succeeded; X9 the active module is reloaded whenever the frame list changes.',
         'assumptions': COMMON_ASSUME,
         'not_decided': ['that every import yields the *same* object at run time (follows from the single registry writer, not executed)',
                         'visibility of built-ins in every module (init_built_in_globals contents)'],
@@ -227,7 +236,8 @@ PROPS = {
                        'character or reports end of input and the parser\'s driver/recovery loops scan on every iteration; the RULES table '
                        '(read from HIR) has one entry per token kind, an infix handler wherever it has an infix precedence, and room to '
                        'raise a binary operator\'s precedence; every comparison with an encoding limit refuses on its exceeding side; the '
-                       'only recursive cycles are the recorded recursive-descent ones.',
+                       'only recursive cycles are the recorded recursive-descent ones.'
+                       ' Later additions (DESIGN 3a.5/3a.6): T6 scanner slices only at character boundaries; T7 take_attribute hands an attribute out only with exactly the requested argument count, and constant indexes into attr.arguments stay below it.',
         'assumptions': COMMON_ASSUME,
         'not_decided': ['termination of every recovery path and absence of slicing/unwrap panics on garbled input (for-all-inputs statements '
                         'about a hand-written parser: need execution, e.g. fuzzing, which is outside this technique family)',
@@ -243,7 +253,8 @@ PROPS = {
                        'oracle): sibling agreement between Parser::binary and Parser::binary_assign arm by arm (x op= y emits the opcodes '
                        'of x op y) and between the scanner\'s token pairs; operand order in the three non-commutative handlers (first pop = '
                        'right operand); every branch placeholder is patched (C04.B3) and loop back-jumps target the innermost recorded '
-                       'header.',
+                       'header.'
+                       ' Later additions (DESIGN 3a.5/3a.6): E4 shared immutable values are never written after construction; E5 each interpolation part is rendered before the next part is evaluated.',
         'assumptions': COMMON_ASSUME,
         'not_decided': ['precedence / associativity table contents', 'value results and error kinds per operand kind',
                         'statement-level control flow at run time', 'evaluate-once and left-to-right order of sub-expressions'],
@@ -291,7 +302,8 @@ PROPS = {
                        'its two-part guard, every value-to-text path goes through that Display impl, numeric text is read with '
                        'str::parse::<f64> on the whole token/string, and the number lexer consumes a `.` only on the edge where a digit '
                        'follows. That the std formatter/parser pair round-trips every double is std\'s documented guarantee and is the '
-                       'stated trusted base, not something decided here.',
+                       'stated trusted base, not something decided here.'
+                       ' Later addition (DESIGN 3a.6): D4 no second number-to-text path in String.from / interpolation.',
         'assumptions': COMMON_ASSUME + ['Rust std: `Display for f64` prints the shortest decimal that parses back to the same value, integral '
                                         'values without a fraction, "NaN" and "inf"; `str::parse::<f64>` is correctly rounded and accepts those'],
         'not_decided': ['the round trip itself for all doubles (delegated to std\'s guarantee)', 'which double a literal denotes beyond "what std parses"'],
